@@ -12,7 +12,7 @@ import json
 from ..core import Prop, Outcome
 from .. import program, proggen, tracecmp
 
-SEG_FIELDS = ['C01', 'C02', 'C03', 'C06db', 'C11', 'C17']
+SEG_FIELDS = ['C01', 'C02', 'C03', 'C06db', 'C11', 'C17', 'C10']
 C01_CLAUSES = ['newestIsLive', 'removedIsDelete', 'onlyRealChanges', 'changedHasRow', 'deleteVals', 'pastKept']
 
 
@@ -27,6 +27,8 @@ def marker_lines(mk):
         out.append('ic ' + r)
     for r in mk['live']:
         out.append('il ' + r)
+    for r in mk.get('links', []):
+        out.append('ilk ' + r)
     return out
 
 
@@ -152,7 +154,9 @@ class TraceProp(Prop):
                 impl_part, model_part, wf_part = ans.split(' | ')
                 f = impl_part.split(' ')
                 verdict = dict(zip(SEG_FIELDS, f))
-                wf_ok, wf_first, cfg_ok = wf_part.split(' ')
+                wf_ok, wf_first, cfg_ok, once = wf_part.split(' ')
+                if once != '1':
+                    out.tags.append('link_changed_twice_in_tx')
                 if wf_ok != '1':
                     out.tags.append('wf_violated:' + wf_first.split(':')[-1])
                 if cfg_ok != '1':
@@ -170,6 +174,11 @@ class TraceProp(Prop):
                         for cl, bit in zip(C01_CLAUSES, v):
                             if bit != '1':
                                 out.violations.append({'clause': 'C01.' + cl, 'detail': {'marker': mk['label'], 'index': i}})
+                    elif fld == 'C10':
+                        if v[0] != '1':
+                            out.violations.append({'clause': 'C10.Holds', 'detail': {'marker': mk['label'], 'index': i}})
+                        if v[1] != '1':
+                            out.violations.append({'clause': 'C10.live_links_differ_from_statements', 'detail': {'marker': mk['label'], 'index': i}})
                     elif v != '1':
                         out.violations.append({'clause': fld + '.Holds', 'detail': {'marker': mk['label'], 'index': i}})
             elif kind == 'chain':
@@ -446,3 +455,58 @@ class C17(TraceProp):
                 if set(tx['names']) != exp_names or len(tx['names']) != len(set(tx['names'])):
                     out.violations.append({'clause': 'C17.entity_names', 'detail': {'tx': tx['id'], 'got': tx['names'],
                                                                                      'expected': sorted(exp_names)}})
+
+
+class C10(TraceProp):
+    id = 'C10'
+    theorems = ['Continuum.c10_holds', 'Continuum.c10_linkInv_init', 'Continuum.c10_linkInv_after_commit',
+                'Continuum.c10_linkInv_after_rollback', 'Continuum.c10_no_error', 'Continuum.c04_links_stable_step',
+                'Continuum.c10_twice_counterexample']
+    sections = ('assoc', 'versions', 'mgr')
+    seg_fields = ('C10',)
+    shapes = ['m2m']
+    weights = {'link': 10, 'unlink': 7, 'commit': 6, 'flush': 4, 'add': 5, 'del': 2, 'set': 2, 'rollback': 1, 'setrel': 0}
+    rule = ('random histories of linking and unlinking on a many-to-many shape (single and several pairs per transaction, from '
+            'either side through the backref, pairs removed and re-added in later transactions, parents or targets deleted, '
+            'rollbacks); association-version rows, pending statements and version rows compared with the model after every '
+            'step; at every commit C10.Holds (replaying the rows yields exactly the live link set read by SQL, past rows kept, '
+            'one row per touched link with the matching type, none for untouched links) is evaluated on the real tables; '
+            'non-trivial = >= 2 transactions changed links; distinct = distinct (spec, program)')
+    needs_tags = ['multi_tx', 'ev:assoc', 'relink_later_tx', 'unlink']
+
+    def pick_plugins(self, rng):
+        return rng.choice([[], [], ['tx_changes']])
+
+    def make_case(self, rng, tier):
+        case = TraceProp.make_case(self, rng, tier)
+        case['autoflush'] = False
+        return case
+
+    def case_tags(self, case, obs, out):
+        TraceProp.case_tags(self, case, obs, out)
+        hist = {}
+        for mk in obs['markers']:
+            if 'commit' in mk['label']:
+                for r in mk['assoc']:
+                    f = r.split(' ')
+                    hist.setdefault((f[0], f[1]), set()).add((int(f[2]), int(f[3])))
+        for v in hist.values():
+            ops = [o for _, o in sorted(v)]
+            if 2 in ops:
+                out.tags.append('unlink')
+            if len(ops) >= 3 or ops[-2:] == [2, 0]:
+                out.tags.append('relink_later_tx')
+        ntx_links = len({t for v in hist.values() for t, _ in v})
+        out.nontrivial = ntx_links >= 2
+
+    def on_error(self, case, obs, out):
+        err = obs['error']
+        if err.get('in_continuum'):
+            sig = 'C10.continuum_raised:' + err['type']
+            if err['type'] == 'IntegrityError' and 'article_tag_version' in err.get('msg', ''):
+                sig = 'C10.link_changed_twice_in_tx:IntegrityError'
+            out.violations.append({'clause': sig, 'detail': err})
+
+    def extra_judge(self, case, obs, out):
+        # C10 verdict has two bits: Holds, and "live link table = statements replayed"
+        pass
